@@ -3,11 +3,19 @@ package main
 import (
 	"fmt"
 	"os"
+	"time"
 )
 
 func usage() {
 	fmt.Fprintln(os.Stderr, "usage: probe <subcommand> [args]")
 	os.Exit(2)
+}
+
+func repoRoot() string {
+	if r := os.Getenv("VERIF_REPO"); r != "" {
+		return r
+	}
+	return "/repo"
 }
 
 func main() {
@@ -17,6 +25,12 @@ func main() {
 	switch os.Args[1] {
 	case "modes":
 		dumpModes()
+	case "scantables":
+		dumpScanTables(repoRoot())
+	case "scan":
+		runCases(os.Args[2], 5*time.Second, scanObs)
+	case "parse":
+		runCases(os.Args[2], 5*time.Second, parseObs)
 	case "modecall":
 		modeCall(os.Args[2:])
 	default:
